@@ -32,12 +32,13 @@ VARIABLES
     lock,     \* [fid -> holder pid]  (only held locks are in the domain)
     run,      \* [fid -> set of script pids between SBegin and SEnd]
     pend,     \* [pid -> [fid -> "started" | "recorded"]] results this process still owes
+    fresh,    \* [pid -> file ids whose row this process has read since it last obtained their lock]
     gone,     \* pids that will never log again without having logged Exit (killed / panicked)
     bad       \* "" or why the last event breaks the protocol
 
-vars == <<l, lock, run, pend, gone, bad>>
+vars == <<l, lock, run, pend, fresh, gone, bad>>
 
-Init == l = 1 /\ lock = << >> /\ run = << >> /\ pend = << >> /\ gone = {} /\ bad = ""
+Init == l = 1 /\ lock = << >> /\ run = << >> /\ pend = << >> /\ fresh = << >> /\ gone = {} /\ bad = ""
 
 e == Rec[l]
 
@@ -59,7 +60,12 @@ Check ==
                              THEN "lock released before the result of its job was committed"
                              ELSE IF Get(run, e.fid, {}) # {} THEN "lock released while the script is still running"
                              ELSE ""
-      [] e.ev = "Verdict" -> IF MayTouch(e.pid, e.fid, e.unl, e.anc) THEN "" ELSE "decision about a target without its lock"
+      [] e.ev = "Verdict" -> IF ~MayTouch(e.pid, e.fid, e.unl, e.anc) THEN "decision about a target without its lock"
+                             \* the result of an earlier execution is recorded before anybody else decides: the decision must
+                             \* be taken on a record read after the lock was obtained, not on a copy from before
+                             ELSE IF e.fid \notin Get(fresh, e.pid, {}) THEN "decision on a record that was not re-read after the lock was obtained"
+                             ELSE ""
+      [] e.ev = "Load"    -> ""
       [] e.ev = "Start"   -> IF ~MayTouch(e.pid, e.fid, e.unl, e.anc) THEN "script started without the lock"
                              ELSE IF Get(run, e.fid, {}) # {} THEN "script started while another one runs for the same target"
                              ELSE ""
@@ -67,6 +73,10 @@ Check ==
                              ELSE IF ~MayTouch(e.par, e.fid, e.unl, e.anc) THEN "script runs while its starter does not hold the lock"
                              ELSE ""
       [] e.ev = "SEnd"    -> ""
+      [] e.ev = "Wait"    -> \* F_SETLKW: never while holding a target lock or owing a result (deadlock freedom)
+                             IF \E f \in DOMAIN lock : lock[f] = e.pid THEN "blocking lock wait while holding another target's lock"
+                             ELSE IF Owes(e.pid) # << >> THEN "blocking lock wait before the results of the own jobs are recorded"
+                             ELSE ""
       [] e.ev = "Rec"     -> IF MayTouch(e.pid, e.fid, e.unl, e.anc) THEN "" ELSE "result recorded without the lock"
       [] e.ev = "Commit"  -> ""
       [] e.ev = "Exit"    -> IF \E f \in DOMAIN lock : lock[f] = e.pid /\ Get(run, f, {}) # {}
@@ -79,7 +89,12 @@ Step ==
             /\ lock' = << >> /\ run' = << >> /\ pend' = << >>
             /\ gone' = {e.gone[i] : i \in 1..Len(e.gone)}
       [] e.ev = "Take" ->
-            /\ lock' = Put(lock, e.fid, e.pid) /\ UNCHANGED <<run, pend, gone>>
+            /\ lock' = Put(lock, e.fid, e.pid)
+            /\ fresh' = Put(fresh, e.pid, Get(fresh, e.pid, {}) \ {e.fid})
+            /\ UNCHANGED <<run, pend, gone>>
+      [] e.ev = "Load" ->
+            /\ fresh' = Put(fresh, e.pid, Get(fresh, e.pid, {}) \cup {e.fid})
+            /\ UNCHANGED <<lock, run, pend, gone>>
       [] e.ev = "Rel" ->
             /\ lock' = IF Holder(e.fid) = e.pid THEN Drop(lock, e.fid) ELSE lock
             /\ UNCHANGED <<run, pend, gone>>
@@ -108,6 +123,9 @@ Next ==
     /\ l' = l + 1
     /\ bad' = Check
     /\ Step
+    /\ IF e.ev = "Reset" THEN fresh' = << >>
+       ELSE IF e.ev = "Exit" THEN fresh' = Drop(fresh, e.pid)
+       ELSE IF e.ev \in {"Take", "Load"} THEN TRUE ELSE UNCHANGED fresh
 
 Spec == Init /\ [][Next]_vars
 
@@ -115,6 +133,6 @@ Accepted == bad = ""
 Mutex == \A f \in DOMAIN run : Cardinality(run[f]) <= 1
 
 View == <<l, bad>>
-Alias == [l |-> l, bad |-> bad, lock |-> lock, run |-> run, pend |-> pend,
+Alias == [l |-> l, bad |-> bad, lock |-> lock, run |-> run, pend |-> pend, fresh |-> fresh,
           ev |-> IF l > 1 /\ l <= Len(Rec) + 1 THEN Rec[l-1] ELSE << >>]
 =============================================================================
